@@ -106,6 +106,9 @@ V: List[Tuple[str, str, str, str, Any, Any, Optional[str]]] = [
     ("C12", "scanner also stops at braces", "breaking", S + "util/template_parser.py", "    QUOTE_OR_PERCENT = (*QUOTE_CHARS, \"%\")", "    QUOTE_OR_PERCENT = (*QUOTE_CHARS, \"%\", \"{\")", "S1"),
     ("C12", "whitespace skip duplicated", "preserving", S + "util/tag_parser.py", "    while not is_at_end():\n        # Skip whitespace\n        take_while(TAG_WHITESPACE)\n", "    while not is_at_end():\n        # Skip whitespace\n        take_while(TAG_WHITESPACE)\n        take_while(TAG_WHITESPACE)\n", None),
     # ---- C13
+    ("C08", "end-tag scanner case-sensitive again", "breaking", S + "dependencies.py", "re.DOTALL | re.IGNORECASE)", "re.DOTALL)", "S8"),
+    ("C08", "tag name compared as written", "breaking", S + "dependencies.py", "        tag_name = match[0][2:6].lower()", "        tag_name = match[0][2:6]", "S8"),
+    ("C08", "inline (?i) instead of the flag", "preserving", S + "dependencies.py", 'head_or_body_end_tag_re = re.compile(r"<\\/(?:head|body)\\s*>", re.DOTALL | re.IGNORECASE)', 'head_or_body_end_tag_re = re.compile(r"(?i)<\\/(?:head|body)\\s*>", re.DOTALL)', None),
     ("C13", "bare key appended after the name guard", "preserving", S + "attributes.py", "            attr_list.append(conditional_escape(key))", "            attr_list.append(key)", None),
     ("C13", "name guard removed", "breaking", S + "attributes.py", "        if _INVALID_ATTR_NAME_RE.search(str(key)):", "        if False and _INVALID_ATTR_NAME_RE.search(str(key)):", "S1"),
     ("C13", "format_html replaced by f-string", "breaking", S + "attributes.py", "            attr_list.append(format_html('{}=\"{}\"', key, value))", "            attr_list.append(f'{key}=\"{value}\"')", "S1"),
